@@ -31,5 +31,7 @@ SEEDED = [
     ("C05-3", "C05-SIB"),
     ("C05-4", "C05-ANY"),
     ("C05-5", "C05-SIB"),
+    ("C05-6", "C05-ORDER"),
+    ("C05-7", "C05-SIB"),
 ]
 MUTANTS = list(MUTANTS) + [_P("seed-" + sid, _os.path.join(_SEEDS, sid, "patch.diff"), rule) for sid, rule in SEEDED if _os.path.exists(_os.path.join(_SEEDS, sid, "patch.diff"))]
